@@ -162,3 +162,38 @@ def write_replay(property_id: str, doc: Dict[str, Any]) -> str:
     p = d / f"{property_id}-{h}.json"
     p.write_text(json.dumps(doc, indent=1, ensure_ascii=True) + "\n")
     return str(p)
+
+
+# --- stub for dict lookups with a symbolic key -------------------------------------------------------------------
+import collections.abc as _abc
+
+
+class ScanMapping(_abc.Mapping):
+    """A mapping whose lookups are a linear scan with ``==`` (a real dict hashes, i.e. realizes, a symbolic key)."""
+
+    def __init__(self, d: Any) -> None:
+        self._items = list(d.items())
+
+    def __getitem__(self, key: Any) -> Any:
+        for k, v in self._items:
+            if key == k:
+                return v
+        raise KeyError(key)
+
+    def get(self, key: Any, default: Any = None) -> Any:
+        for k, v in self._items:
+            if key == k:
+                return v
+        return default
+
+    def __contains__(self, key: object) -> bool:
+        for k, _ in self._items:
+            if key == k:
+                return True
+        return False
+
+    def __iter__(self) -> Any:
+        return iter([k for k, _ in self._items])
+
+    def __len__(self) -> int:
+        return len(self._items)
